@@ -92,7 +92,7 @@ var defaultInitDeny = []string{
 	"log", "testing", "flag", "unsafe", "math/rand", "math/big", "vendor/", "golang.org/x/sys", "golang.org/x/net",
 	"github.com/aws", "github.com/prometheus", "crawshaw.io", "github.com/google/certificate-transparency-go",
 	"google.golang.org", "github.com/go-logr", "k8s.io", "go.opentelemetry.io", "golang.org/x/text", "mime", "html",
-	"text/template", "encoding/json", "encoding/xml", "encoding/gob", "encoding/asn1", "compress/", "archive/", "database/",
+	"text/template", "encoding/json", "encoding/xml", "encoding/gob", "encoding/asn1", "compress/zlib", "compress/lzw", "compress/bzip2", "archive/zip", "database/",
 	"hash/", "regexp", "expvar", "filippo.io/mldsa", "filippo.io/edwards25519", "filippo.io/bigmod", "filippo.io/keygen",
 	"golang.org/x/crypto/", "github.com/cespare", "gopkg.in", "go/", "text/", "embed", "iter", "weak", "unique", "fmt",
 	"golang.org/x/sync", "golang.org/x/term", "golang.org/x/time", "github.com/google/trillian", "github.com/jackc",
